@@ -71,6 +71,21 @@ CHECKS.update({
    "task granularity; one recorded known finding (a replaced draining worker is never removed)", "DESIGN.md section 5 C13-C15"),
 })
 
+CHECKS.update({
+ "C17": ("vsched+enum", "explicit-state enumeration of all input sequences through the real authentication state machines against a reference table + stateless model checking of real NodeServer sessions fed every frame sequence over an in-memory pipe",
+   "All sequences of 5 (quick) / 6 (thorough) symbols over 13 symbols through ServerAuthenticationProcess / ClientAuthenticationProcess::next, with a peer that knows the cookie and one that does not: Ok only along the honest path, Close absorbing, anything else closes. Real sessions (accepting and dialling) receive every sequence of 3 (quick) / 4 (thorough) frames from a 14-symbol alphabet: no local actor handles anything, no proxy is created, pg is unchanged, the session is not listed, a bad authentication message stops it; then the honest (and a wrong-cookie) handshake, after which only the advertised remotable actor receives casts/calls.",
+   "digests are not inverted (a peer without the cookie computes digests with another cookie); session runs use the default schedule (deviation bound 0 for the frame sweep, 1-2 for the handshake runs)", "DESIGN.md section 5 C17"),
+ "C18": ("vsched+enum", "exhaustive enumeration through the real elect_sessions + stateless model checking of two real NodeServers joined by in-memory pipes",
+   "Both name orders x every multiset of up to 3 (quick) / 4 (thorough) connections x every actor-id assignment at both nodes x every examination order: order independence, a common survivor, exactly one and the same when distinguishable, exactly one on the accepting side of a tie. Two real nodes: simultaneous dial, two and three dials, an unauthenticated connection claiming the peer's name; each node ends with exactly one listed, ready session over the same pipe and the spoof neither displaces nor joins it.",
+   "a link that became ready and is then superseded is reported ready and then disconnected (the repository's own tests accept that); both nodes share one process", "DESIGN.md section 5 C18"),
+ "C19": ("enum+vsched", "exhaustive bounded enumeration of byte streams / fragmentations / argument strings through the real frame reader and generated decoders, round trips over boundary values, plus schedule-explored live actors",
+   "Every byte stream of length <= 7 (quick) / 9 (thorough) over {00,01,08,7f,80,ff} through the real frame reader with a 16-byte limit (reads are counted: nothing is requested after an oversized header, never more than a chunk), boundary headers x payload x fragmentation, every fragmentation of valid frames with a Pending before each read, every argument string of length <= 6 / 8 over 5 symbols (+ length-prefix shapes) x 11 variant tags x cast/call through the derived decoders, every BytesConvertable type over boundary values, job metadata strings; real Send and thread-local actors receiving undecodable payloads keep running.",
+   "bounded lengths and alphabets chosen from the decoders' branch conditions; prost trusted beyond totality; one fixed finding (thread-local actors)", "DESIGN.md section 5 C19"),
+ "C20": ("vsched", "stateless model checking of two real NodeServers over an in-memory pipe with explored transport read sizes",
+   "Session ready, then 2 senders x 2 casts and 3 concurrent calls (one abandoned, replies leaving out of request order) through the remote reference, group leave / re-join, then the original stops or the link closes; read size in {all, 1, 7 bytes}; schedules explored with deviation bound 1 (quick) / 2 (thorough) from the first remote send.",
+   "both nodes share one process-wide registry and pg; no real TCP/TLS", "DESIGN.md section 5 C20"),
+})
+
 NOT_YET = {}
 
 def main():
@@ -106,9 +121,9 @@ def main():
             "add_only": True,
         },
         "engines": [
-            {"name": "vsched", "path": "/verif/engine", "serves_properties": [c["property_id"] for c in checks if c["engine"] == "vsched"],
+            {"name": "vsched", "path": "/verif/engine", "serves_properties": [c["property_id"] for c in checks if "vsched" in c["engine"]],
              "kind_free_text": "stateless model checker: every ractor task and harness task is a shuttle coroutine on one OS thread; our scheduler enumerates schedules depth-first under an iterated deviation bound, or completely with sleep-set partial-order reduction; virtual clock; abort/cut injection; runs the real ractor code through the verif_hooks seam"},
-            {"name": "enum", "path": "/verif/engine/src/report.rs", "serves_properties": [c["property_id"] for c in checks if c["engine"] == "enum"],
+            {"name": "enum", "path": "/verif/engine/src/report.rs", "serves_properties": [c["property_id"] for c in checks if "enum" in c["engine"]],
              "kind_free_text": "exhaustive bounded enumeration / explicit-state BFS over real sequential code with a reference model"},
         ],
         "checks": checks,
